@@ -181,6 +181,27 @@ def entry_points(ck, w, variant="plain"):
     return n
 
 
+def wide_ruleset(ck, w):
+    """more rules than fit one 64-bit word of the scanner's bitmaps; ONE scanner object serves all its entry points in series (buffers alternate), the rules-level
+    calls use a fresh scanner each: all must agree per buffer"""
+    text = "\n".join('rule w%02d { strings: $s = "tok%02d" condition: $s }' % (k, k) for k in range(72)) + "\nrule wfs { condition: filesize > 8 }"
+    rep = w.batch(["reset", "compiler 0", "add 0 - " + yv.hx(text), "getrules 0 0", "cdestroy 0", "scanner 0 0"])
+    assert rep[2]["errors"] == 0, rep[2]
+    A, B = b"tok03 tok64 tok66 tok71", b"tok05 nothing else"
+    n = 0
+    ref = {}
+    for b in (A, B): ref[b] = obs(w.cmd("scan target=r0 via=mem data=" + yv.hx(b)))
+    seq = [("scanner-mem", A), ("scanner-mem", B), ("scanner-file", B), ("scanner-fd", A), ("scanner-iterator", B), ("scanner-mem", B), ("scanner-file", A), ("scanner-iterator", B)]
+    for name, b in seq:
+        via = {"scanner-mem": "mem", "scanner-file": "file", "scanner-fd": "fd", "scanner-iterator": "blocks"}[name]
+        r = w.cmd("scan target=s0 via=%s data=%s" % (via, yv.hx(b))); n += 1
+        if obs(r) != ref[b]:
+            extra = sorted(set(m[1] for m in r["t"] if m[0] == "m") ^ set(m[1] for m in json.loads(ref[b])[0] if m[0] == "m"))
+            ck.violation("C13:entry-point:wide-rule-set:%s-differs-from-rules-level" % name, dict(buffer=b.decode(), rules_differing=extra[:6])); break
+    ck.sub("wide-rule-set", executions=n)
+    return n
+
+
 def executables(ck, w):
     """executable images through the iterator: state derived from an early block (entry point, module values) must survive suspension; every 2- and 3-block
     partition at header-relevant cut points x every non-empty subset of not-ready iterator calls; the final observation must equal the uninterrupted scan of the
@@ -228,7 +249,7 @@ def main():
     w = yv.get_worker("plain")
     n_ep = entry_points(ck, w)
     wa = yv.get_worker("asan"); n_ep += entry_points(ck, wa, "asan"); yv.drop_worker("asan")      # once more under ASan: a look one byte past the data is a report
-    n_re = reiteration(ck, w) + executables(ck, w)
+    n_re = reiteration(ck, w) + executables(ck, w) + wide_ruleset(ck, w)
     yv.drop_worker("plain")
     distinct = set(); calls = 0
     for res in yv.pmap(run_chunk, [(ck.tier, c) for c in yv.chunked(bufs, 4)], ck):
